@@ -748,6 +748,32 @@ def placements():
     return out
 
 
+class EK:
+    def __init__(self, x: int = 1):
+        self.x = x
+
+
+def empty_config_cases(h):
+    """A configuration that happens to be empty (or to hold only empty branches) is an argument like any other: instantiate_classes,
+    dump, validate on a parser with class groups leave it as it was and do not return the very object."""
+    for style in ("class-group", "subclass-argument-with-default", "nested-class-group"):
+        for cname, make in (("Namespace()", lambda: Namespace()), ("Namespace(k=Namespace())", lambda: Namespace(k=Namespace()))):
+            p = ArgumentParser(exit_on_error=False)
+            if style == "class-group":
+                p.add_class_arguments(EK, "k")
+            elif style == "nested-class-group":
+                p.add_class_arguments(EK, "g.k")
+            else:
+                p.add_subclass_arguments(EK, "k", default={"class_path": f"{__name__}.EK"})
+            for op, fn in (("instantiate_classes", lambda c: p.instantiate_classes(c)), ("dump", lambda c: p.dump(c)), ("validate", lambda c: p.validate(c))):
+                cfg = make()
+                case = {"parser": style + " of class EK(x: int = 1)", "configuration": cname, "call": op}
+                res = observe(h, op, p, lambda: fn(cfg), {"cfg": cfg}, case)
+                if op == "instantiate_classes" and res[0] == "ok":
+                    h.check(res[1] is not cfg, f"c08:same-object:{op}:{style}:{cname}", "the result is the very object that was given (what is built later is written into the caller's configuration)", case)
+                h.nontrivial(("empty-config", style, cname, op))
+
+
 def instantiate_twice(h):
     for name, build, groups, inputs in placements():
         for n_in, inp in enumerate(inputs):
@@ -1001,6 +1027,7 @@ def work(unit):
                 grid_unit(rec, "flat", RANDOM_SHAPES[unit[2]], tmp)
             elif what == "inst2":
                 instantiate_twice(rec)
+                empty_config_cases(rec)
             elif what == "world":
                 world_cases(rec, tmp)
         finally:
